@@ -19,7 +19,7 @@ from db import AnalysisBroken, VERIF
 
 IMPL = 'manifold::Manifold::Impl'
 HE = 'manifold::Halfedges'
-ALL = frozenset('TSGBKF')
+ALL = frozenset('TSGBKFR')
 STRUCT_MUT = {'SetStart', 'SetEnd', 'SetPair', 'Set', 'MakeInvalid', 'push_back', 'resize', 'resize_nofill',
               'clear', 'FromData'}
 
@@ -180,6 +180,10 @@ class Escape:
         for b, cond in eff.get('kill_if_not', {}).items():
             if cond not in cur:
                 cur.discard(b)
+        for b, cond in eff.get('gen_if', {}).items():
+            if cond in cur:
+                cur.add(b)
+                cur.discard(cond)
         for b in eff.get('gen', []):
             cur.add(b)
         if self.cache and (set(eff.get('gen', [])) & set('BKT')) and not eff.get('_dyn'):
@@ -313,7 +317,7 @@ class Escape:
                                                       self._nonconst_param(fn, ev, a)):
                     handed = self.obj_of(n['base']) if n.get('k') == 'mem' else None
                 if handed:
-                    out.append((handed, False))
+                    out.append((handed, False, True))
             if k == 'call' and ev.get('recv') is not None and T.short(ev.get('fn', '')) in \
                     ('resize', 'resize_nofill', 'push_back', 'swap'):
                 o = vp(ev['recv'])
@@ -395,12 +399,18 @@ class Escape:
                                 st[v['n']] = (st.get(src, frozenset()) if src in st else frozenset()) | \
                                     (self.pbits if len(a) == 1 else frozenset())
                 if k in ('call', 'ctor', 'ilist', 'cast', 'bin'):
-                    for obj, isnan in self.position_writes(fn, ev):
+                    for pw in self.position_writes(fn, ev):
+                        obj, isnan = pw[0], pw[1]
+                        whole = len(pw) > 2 and pw[2]
                         if obj in st or obj == 'this':
                             gen = ['T'] if isnan else ['B', 'K', 'F']
                             if T.basename(fn['name'].split('::<lambda')[0]) in self.tab.get('finite_preserving_writers', {}):
                                 gen = [b for b in gen if b != 'F']
-                            self.apply_effect(st, obj, {'gen': gen}, fn, ln, 'vertPos_ write')
+                            eff = {'gen': gen}
+                            if whole and not isnan:
+                                # every position is rewritten: NaN marks that flagged stranded verts are wiped
+                                eff['gen_if'] = {'S': 'R'}
+                            self.apply_effect(st, obj, eff, fn, ln, 'vertPos_ write')
                 if k == 'call':
                     for obj, eff, what in self.effect_of_call(fn, ev):
                         if obj in st or obj == 'this':
@@ -616,6 +626,7 @@ BIT_TEXT = {'T': 'tombstones (halfedge -1 / NaN vertex) not compacted', 'S': 'st
             'G': 'import gate (IsManifold) not passed', 'B': 'bounding box not recomputed after positions changed',
             'K': 'collider not rebuilt after geometry changed',
             'F': 'vertex positions written by arithmetic and not tested finite (CalculateBBox / IsFinite)'}
+BIT_TEXT['R'] = 'NaN marks of removed vertices pending compaction'
 for _c in 'abcdefgh':
     BIT_TEXT[_c] = 'a mutable cache member of Impl not reset after the geometry changed'
 
